@@ -74,7 +74,7 @@ type HelperReport struct {
 // (scratch/thrift/…), writing the generated code to outDir.
 func (e *Env) RunHelper(helper, scratch string, j *Job, file, outDir, thriftRoot string, order uint64) (*HelperReport, error) {
 	o := j.Opts
-	args := []string{"-file", scratch + "/thrift/" + file, "-out", outDir, "-prefix", o.Prefix(), "-root", thriftRoot, "-order", fmt.Sprint(order)}
+	args := []string{"-file", scratch + "/thrift/" + file, "-out", outDir, "-prefix", o.PrefixArg(), "-root", thriftRoot, "-order", fmt.Sprint(order)}
 	if o.NoRecurse {
 		args = append(args, "-no-recurse")
 	}
